@@ -19,6 +19,7 @@ FAMILIES = {
                                         "join_kinds": ["inner", "left"], "order_p": 0.8, "avg": False}),
     "optshapes": dict(seed=113, n=3000, gen="OptShapes", opts={}),
     "joingraph": dict(seed=115, n=2000, gen="JoinGraphs", opts={}),
+    "valuesbig": dict(seed=139, n=10, gen="ValuesGen", opts={"tables": 1, "boolops": False, "like": False, "subq": False, "big_values": True}),
     "values": dict(seed=116, n=1500, gen="ValuesGen", opts={"tables": 1, "boolops": False, "like": False, "subq": False}),
     "gsets": dict(seed=117, n=2000, gen="GroupingSetsGen", opts={"null_p": 0.3, "boolops": False, "like": False, "subq": False, "dom": 2}),
     "window": dict(seed=118, n=3000, gen="WindowGen", opts={"null_p": 0.25, "boolops": False, "like": False, "subq": False, "dom": 3}),
@@ -30,6 +31,7 @@ FAMILIES = {
     "cte2": dict(seed=123, n=1500, gen="Shapes2", opts={"only_shapes": ["cte_multi", "cte_semi"]}),
     "samecols": dict(seed=133, n=800, gen="Shapes2", opts={"only_shapes": ["samecols_semi"]}),
     "limit0": dict(seed=137, n=500, gen="Shapes2", opts={"only_shapes": ["limit_zero"]}),
+    "spilljoin": dict(seed=141, n=16, gen="Shapes2", opts={"only_shapes": ["spill_join"]}),
     "unionjoin": dict(seed=131, n=600, gen="Shapes2", opts={"only_shapes": ["union_join_str"]}),
     "setop3": dict(seed=124, n=1500, gen="Shapes2", opts={"only_shapes": ["setop_chain"]}),
     "aggwide": dict(seed=125, n=1000, gen="Shapes2", opts={"only_shapes": ["agg_wide"]}),
